@@ -2,6 +2,7 @@
 From Bita Require Import Model.Base Gen.Generated Model.Proto Model.Archive.
 From Bita Require Import Model.ChunkIndex Model.CloneOutput Model.CloneSpec Model.CloneArchive.
 From Bita Require Import Proofs.ProtoRoundTrip Proofs.ProtoUnknown Proofs.CloneCorrect Proofs.TamperSafe.
+From Bita Require Import Proofs.ProtoFree Proofs.ProtoFreeWire.
 
 (* unknown dictionary fields (any tag outside the schema; varint, 64-bit, length-delimited or 32-bit wire
    types) anywhere between complete top-level fields do not change what is decoded *)
@@ -22,6 +23,34 @@ Theorem C17_decode_with_trailing_unknown : forall d t wt u,
   decode_dict (encode_dict d ++ encode_key t wt ++ u) = Some d.
 Proof. exact decode_encode_dict_trailing_unknown. Qed.
 
+(* EVERY conforming encoding of a dictionary decodes to it. [free_dict d bytes] (Proofs/ProtoFree.v) is the protobuf
+   grammar written from the encoders alone: a sequence of field occurrences in ANY order and interleaving at both
+   levels (dictionary and sub-messages); defaults omitted or written explicitly; singular scalars repeated (last
+   wins); chunker_params / chunk_compression split into several occurrences (merged); rebuild_order as any mix of
+   packed runs and unpacked elements; descriptors in order, each freely encoded; metadata entries in any order;
+   unknown fields of wire types 0/1/2/5 anywhere. The writer's own layout is one instance. *)
+Theorem C17_free_encoding_decodes : forall d bytes,
+  dict_wf d -> lenN bytes < 18446744073709551616 -> free_dict d bytes -> decode_dict bytes = Some d.
+Proof. exact free_encoding_decodes. Qed.
+
+Theorem C17_writer_layout_is_one_of_them : forall d, dict_wf d -> free_dict d (encode_dict d).
+Proof. exact canonical_is_free. Qed.
+
+(* the same when, in addition, every key, length prefix, scalar and packed element is ANY valid base-128 encoding
+   of its value (padded, non-minimal varints of up to 10 bytes): Proofs/ProtoFreeWire.v *)
+Theorem C17_wire_encoding_decodes : forall d bytes,
+  dict_wf d -> wire_dict d bytes -> decode_dict bytes = Some d.
+Proof. exact wire_encoding_decodes. Qed.
+
+Theorem C17_free_is_wire : forall d bytes, lenN bytes < 18446744073709551616 -> free_dict d bytes -> wire_dict d bytes.
+Proof. exact free_is_wire. Qed.
+
+(* non-vacuity: ex_bytes (Proofs/ProtoFree.v) is a 94-byte non-canonical encoding -- metadata first with value
+   before key, descriptors in reverse field order, unknown fields inside and between, order as unpacked/packed/
+   empty runs, params split in two, total overridden -- with free_dict ex_d ex_bytes and ex_bytes <> encode_dict ex_d *)
+Example C17_free_example : free_dict ex_d ex_bytes /\ ex_bytes <> encode_dict ex_d /\ decode_dict ex_bytes = Some ex_d.
+Proof. split; [exact ex_free|]. split; [exact ex_not_canonical|exact ex_decodes]. Qed.
+
 (* clone part: ANY accepted archive whose index describes a source (stored chunks anywhere, in any order,
    with gaps, raw or compressed per chunk: only [unpack] of the stored range has to give the chunk) is cloned
    to exactly that source, with or without seeds / in place *)
@@ -39,3 +68,7 @@ Print Assumptions C17_conforming_archive_cloned.
 Print Assumptions C17_unknown_field_skipped.
 Print Assumptions C17_decode_with_leading_unknown.
 Print Assumptions C17_decode_with_trailing_unknown.
+Print Assumptions C17_free_encoding_decodes.
+Print Assumptions C17_writer_layout_is_one_of_them.
+Print Assumptions C17_wire_encoding_decodes.
+Print Assumptions C17_free_is_wire.
